@@ -108,6 +108,10 @@ struct Item {
     /// exact-text replacements (escape hatch, reported as rule M)
     #[serde(default)]
     manual: Vec<(String, String, String)>,
+    /// E14: `S1.chain(S2)...collect()` (each Si possibly `A.flat_map(|PAT| BODY)`) -> accumulator block with one `for` loop per
+    /// segment (nested loops for flat_map) that inserts every item into `<loopify>::new()`; value = accumulator type path
+    #[serde(default)]
+    loopify: Option<String>,
 }
 
 #[derive(Deserialize, Debug)]
@@ -259,6 +263,95 @@ impl<'a> Ctx<'a> {
     }
     fn site(&mut self, k: &str) {
         *self.sites.entry(k.to_string()).or_insert(0) += 1;
+    }
+    /// E14 helper: registers a generated loop, returns (ordinal, text after `{`, text before `}`)
+    fn gen_loop(&mut self, kind: &str, at: Span) -> (usize, String, String) {
+        let ord = self.loops.len() + 1;
+        self.loops.push(LoopOut { ordinal: ord, kind: kind.to_string(), line: self.src.line_of(self.src.range(at).0) });
+        let mut ls = String::new();
+        let mut le = String::new();
+        let anchors: Vec<Anchor> = self.item.anchors.iter().filter(|a| a.loop_ == ord && (a.where_ == "loop_start" || a.where_ == "loop_end")).cloned().collect();
+        for an in anchors {
+            if an.where_ == "loop_start" { ls.push_str(&format!(" /*@ANCHOR:{}@*/ ", an.id)); } else { le.push_str(&format!(" /*@ANCHOR:{}@*/ ", an.id)); }
+            self.anchors_found.push(an.id.clone());
+        }
+        (ord, ls, le)
+    }
+    /// E14: `S1.chain(S2)..collect()` -> `{ let mut vx_acc = ACC::new(); for .. { vx_acc.insert(..); } .. vx_acc }`
+    /// justified by the rustdoc of `FromIterator for BTreeSet` (every item is inserted), `Iterator::chain` (all items of the
+    /// first iterator, then all items of the second) and `Iterator::flat_map` (for every item of the outer iterator, in
+    /// order, every item of the iterator the closure returns)
+    fn loopify_collect(&mut self, whole: &syn::Expr, mc: &syn::ExprMethodCall) {
+        use syn::visit::Visit;
+        let acc = self.item.loopify.clone().unwrap();
+        // flatten the chain tree (left-nested method calls)
+        let mut segs: Vec<&syn::Expr> = vec![];
+        let mut cur: &syn::Expr = &mc.receiver;
+        loop {
+            match cur {
+                syn::Expr::MethodCall(c) if c.method == "chain" && c.args.len() == 1 => { segs.push(&c.args[0]); cur = &c.receiver; }
+                _ => { segs.push(cur); break; }
+            }
+        }
+        segs.reverse();
+        let (ws, we) = self.src.range(whole.span());
+        let (_, first_s) = (0, self.src.range(segs[0].span()).0);
+        self.add(ws, first_s, format!("{{ let mut vx_acc = {acc}::new(); "), "E14 collect -> accumulator loops");
+        self.site("loopified_collect");
+        for (k, seg) in segs.iter().enumerate() {
+            let (ss, se) = self.src.range(seg.span());
+            // text between this segment and the next (`.chain(` / `)`), or up to the end of the whole expression
+            let next_start = if k + 1 < segs.len() { self.src.range(segs[k + 1].span()).0 } else { we };
+            let mut handled = false;
+            if let syn::Expr::MethodCall(fm) = seg {
+                if fm.method == "flat_map" && fm.args.len() == 1 {
+                    if let syn::Expr::Closure(cl) = &fm.args[0] {
+                        if cl.inputs.len() == 1 {
+                            self.closures += 1; // the consumed closure keeps its source ordinal
+                            let pat = self.src.slice(cl.inputs[0].span()).to_string();
+                            let (o1, l1s, l1e) = self.gen_loop("for-flat_map-outer", fm.span());
+                            let (as_, ae) = self.src.range(fm.receiver.span());
+                            self.add(as_, as_, format!("for {pat} in it{o1}: "), "E14 flat_map -> nested for");
+                            // tail expression of the closure body
+                            let (tail, is_block): (&syn::Expr, bool) = match &*cl.body {
+                                syn::Expr::Block(b) => match b.block.stmts.last() {
+                                    Some(syn::Stmt::Expr(t, None)) => (t, true),
+                                    _ => { self.errors.push("E14: flat_map closure block without tail expression".into()); (&*cl.body, false) }
+                                },
+                                other => (other, false),
+                            };
+                            let (bs, be) = self.src.range(cl.body.span());
+                            let (ts, te) = self.src.range(tail.span());
+                            let (o2, l2s, l2e) = self.gen_loop("for-flat_map-inner", tail.span());
+                            if is_block {
+                                // `A.flat_map(|u| { stmts; TAIL })` -> `for u in A /*LOOP*/ { { stmts; for vx_p in TAIL /*LOOP*/ { insert } } }`
+                                self.add(ae, bs, format!(" /*@LOOP{o1}@*/ {{ {l1s}"), "E14 flat_map -> nested for");
+                            } else {
+                                self.add(ae, bs, format!(" /*@LOOP{o1}@*/ {{ {l1s}"), "E14 flat_map -> nested for");
+                            }
+                            self.add(ts, ts, format!("for vx_p in it{o2}: "), "E14 flat_map -> nested for");
+                            self.add(te, te, format!(" /*@LOOP{o2}@*/ {{ {l2s} vx_acc.insert(vx_p); {l2e} }}"), "E14 flat_map -> nested for");
+                            // from the end of the closure body to the start of the next segment
+                            self.add(be, next_start, format!(" {l1e} }} "), "E14 flat_map -> nested for");
+                            self.visit_expr(&fm.receiver);
+                            if let syn::Expr::Block(b) = &*cl.body {
+                                let n = b.block.stmts.len();
+                                for st in &b.block.stmts[..n.saturating_sub(1)] { self.visit_stmt(st); }
+                            }
+                            self.visit_expr(tail);
+                            handled = true;
+                        }
+                    }
+                }
+            }
+            if !handled {
+                let (o, ls, le) = self.gen_loop("for-collect-segment", seg.span());
+                self.add(ss, ss, format!("for vx_p in it{o}: "), "E14 collect -> accumulator loops");
+                self.add(se, next_start, format!(" /*@LOOP{o}@*/ {{ {ls} vx_acc.insert(vx_p); {le} }} "), "E14 collect -> accumulator loops");
+                self.visit_expr(seg);
+            }
+        }
+        self.add(we, we, " vx_acc }".to_string(), "E14 collect -> accumulator loops");
     }
     fn subst_key_for_path(&self, p: &syn::Path, full: &str) -> Option<(Span, String)> {
         let n = norm(full).replace(' ', "");
@@ -699,6 +792,10 @@ impl<'a, 'ast> Visit<'ast> for Ctx<'a> {
                         self.site("e5_access");
                         return;
                     }
+                }
+                if m == "collect" && mc.args.is_empty() && self.item.loopify.is_some() {
+                    self.loopify_collect(e, mc);
+                    return;
                 }
                 if self.item.wrap.contains(&m) || self.item.wrap.contains(&format!("&{m}")) {
                     // E12: RECV.m(ARGS) -> vx_m(RECV, ARGS)   (`&m` in the list: the receiver is auto-referenced, vx_m(&RECV, ARGS))
